@@ -175,6 +175,31 @@ def runX : List Action :=
 def sX : Sys := runActs sA runX
 theorem sX_reach : Reach anyAction job sX := reach_run sA_reach runX (by decide +kernel)
 
+/-- the same on the one-attempt Job `job1` (from `tA`: task `job-h-0` recorded, its pod alive) -/
+def tX : Sys := runActs tA runX
+theorem tX_reach : Reach anyAction job1 tX := reach_run (tA_reach.mono (fun _ _ _ => trivial)) runX (by decide +kernel)
+
+/-! #### a STALE foreign pod in the pod cache (a cache miss since the repair of F22) -/
+
+/-- a pod without owner called `job-h-0` -/
+def foreignEarly : PodObj := { pod := { name := "job-h-0", creationTimestamp := some 0 } }
+/-- the foreign pod exists before the Job's first pass and reaches the pod cache; it is removed from the
+server (deletion event undelivered); the first pass creates and records the Job's own `job-h-0`; the
+status update is delivered; the next pass runs -/
+def runY : List Action :=
+  [.createForeign foreignEarly, .deliverPod, .externalDelete "job-h-0", .deliverJob, .work, .deliverJob, .work]
+def tY : Sys := runActs t0 runY
+theorem tY_reach : Reach anyAction job1 tY := reach_run (t0_reach.mono (fun _ _ _ => trivial)) runY (by decide +kernel)
+
+/-! #### a delete issued from a STALE pod-cache copy hits a foreign pod (deletes are by name) -/
+
+/-- from `sA`: the Job's own `job-h-0` reaches the pod cache; it vanishes from the server and a foreign
+pod takes its name (both events undelivered); the user deletes the Job; the finalizer pass runs -/
+def runZ : List Action :=
+  [.deliverPod, .externalDelete "job-h-0", .createForeign foreignPod, .userDelete, .deliverJob, .work]
+def sZ : Sys := runActs sA runZ
+theorem sZ_reach : Reach anyAction job sZ := reach_run sA_reach runZ (by decide +kernel)
+
 theorem wf2_job : WF2 job d := ⟨by decide +kernel, by decide +kernel⟩
 theorem wf2_job2 : WF2 job2 d := ⟨by decide +kernel, by decide +kernel⟩
 
